@@ -18,9 +18,9 @@ def distinct_mags(rng, n, lo=1.0, step=0.5):
     return [float(x) for x in rng.permutation(m)]
 
 
-def gen_matrix(rng, kind, n, dt):
+def gen_matrix(rng, kind, n, dt, unit=1.0):
     cplx = dt in P.CPLX
-    mags = distinct_mags(rng, n)
+    mags = [m * unit for m in distinct_mags(rng, n)]  # (eigenpairs do not depend on the unit the operator is expressed in)
     if kind in ("herm-definite", "herm-indefinite"):
         signs = np.ones(n) if kind == "herm-definite" else rng.choice([-1.0, 1.0], size=n)
         if kind == "herm-indefinite":
@@ -69,7 +69,8 @@ def gen(tier, rng, shard, nshards):
         kind = S.pick(rng, ["herm-definite", "herm-indefinite", "herm-indefinite", "general", "general", "Diagonal", "Triangular",
                             "Triangular", "Identity"])
         n = int(rng.integers(1, 9)) if rng.random() < 0.75 else int(S.pick(rng, [12, 20, 30] + ([50, 80] if tier == "thorough" else [])))
-        node = gen_matrix(rng, kind, n, dt)
+        unit = float(S.pick(rng, [1.0, 1.0, 1.0, 1e-8, 1e8])) if kind in ("herm-definite", "herm-indefinite", "general", "Diagonal") else 1.0
+        node = gen_matrix(rng, kind, n, dt, unit)
         k = int(rng.integers(1, n + 1)) if rng.random() < 0.8 else n
         which = S.pick(rng, ["LM", "SM"])
         herm = kind.startswith("herm")
